@@ -403,6 +403,32 @@ impl Prop for C07 {
                     }
                 };
                 let want: Vec<Vec<&String>> = hv.iter().map(|idxs| idxs.iter().map(|i| &refs[*i]).collect()).collect();
+                if let Some(spec) = case.x.first() {
+                    // replay of one recorded schedule, twice
+                    let prefix: Vec<usize> = spec.split(',').filter_map(|t| t.trim().parse().ok()).collect();
+                    let a = sched::run(&bodies, &prefix);
+                    let b = sched::run(&bodies, &prefix);
+                    cx.conversions += 2 * hv.iter().map(|t| t.len() as u64).sum::<u64>();
+                    if a.points != b.points {
+                        cx.machinery.push(format!("harness {}: the recorded schedule does not replay deterministically (point sequences differ)", h));
+                    }
+                    for x in [&a, &b] {
+                        cx.compared();
+                        if x.deadlock {
+                            cx.fail("deadlock", format!("harness {}: no enabled thread under schedule {:?}", h, prefix));
+                            return;
+                        }
+                        for (t, outs) in x.outputs.iter().enumerate() {
+                            for (j, o) in outs.iter().enumerate() {
+                                if o.as_ref().ok() != want[t].get(j).copied() {
+                                    cx.fail("schedule-dependent", format!("harness {}: thread {} conversion {} differs from its sequential result under the recorded schedule {:?}", h, t, j, prefix));
+                                    return;
+                                }
+                            }
+                        }
+                    }
+                    return;
+                }
                 let (root, kids) = sched::root_children(&bodies, bound);
                 cx.conversions += hv.iter().map(|t| t.len() as u64).sum::<u64>();
                 let judge = |cx: &mut Cx, choices: &[usize], x: &sched::Execution| -> bool {
@@ -411,8 +437,9 @@ impl Prop for C07 {
                         cx.machinery.push(format!("harness {}: {}", h, e));
                         return false;
                     }
+                    let exact = Case::snx("schedule", vec![h, bound as i64, -2], vec![choices.iter().map(|c| c.to_string()).collect::<Vec<_>>().join(",")]);
                     if x.deadlock {
-                        cx.fail("deadlock", format!("harness {} ({:?}): no enabled thread under schedule {:?}", h, hv, choices));
+                        cx.fail_case("deadlock", format!("harness {} ({:?}): no enabled thread under schedule {:?}", h, hv, choices), exact);
                         return false;
                     }
                     for (t, outs) in x.outputs.iter().enumerate() {
@@ -422,7 +449,7 @@ impl Prop for C07 {
                                 Err(_) => false,
                             };
                             if !ok {
-                                cx.fail(
+                                cx.fail_case(
                                     "schedule-dependent",
                                     format!(
                                         "harness {}: thread {} conversion {} ({:?}) differs from its sequential fresh-process result under schedule {:?}{}",
@@ -436,6 +463,7 @@ impl Prop for C07 {
                                             _ => String::new(),
                                         }
                                     ),
+                                    exact.clone(),
                                 );
                                 return false;
                             }
